@@ -399,12 +399,14 @@ func exec(op string) string {
 }
 
 func pre(emit func(string), thorough bool) {
-	// exhaustive path.Clean differential over a 3-letter alphabet
-	max := 7
+	// exhaustive path.Clean differential over {'/', '.', 'a', '%'}: every string up to length 6 (10 in the
+	// thorough tier, 1.4 million strings).  This enumeration, not a proof, is what ties the element-stack model
+	// `clean` to Go's lazybuf implementation.
+	max := 6
 	if thorough {
-		max = 9
+		max = 10
 	}
-	alpha := []byte{'/', '.', 'a'}
+	alpha := []byte{'/', '.', 'a', '%'}
 	var rec func(cur []byte)
 	rec = func(cur []byte) {
 		emit("clean " + vh.Hex(cur))
